@@ -28,6 +28,9 @@ class RandomSource(abc.ABC):
     ) -> T:
         acc_weights: list[int] = [int(x * 100000) for x in accumulate(weights)]
         total = acc_weights[-1]
+        if total <= 0 and any(w > 0 for w in weights):
+            # every positive weight is below the resolution of the integer scale
+            return self.choice([c for c, w in zip(choices, weights) if w > 0])
         rand_value: float = self.randint(0, max(total - 1, 0))
 
         for choice, acc in zip(choices, acc_weights):
